@@ -110,23 +110,15 @@ Proof.
   eapply dev_key_as_map_retyped; eauto.
 Qed.
 
-(* KNOWN FINDING (open): a deviation that never reaches the comparator.  When
-   the target specifies metadata.annotations and the live value is retyped to a
-   truthy non-map, `_extract_last_applied` raises AttributeError before
-   validate_match is called; the exception leaves reconcile_krm_resource and no
-   correction is made, whatever the policy.  (This is why C05_drift_corrected
-   below carries the hypothesis that the last-applied annotation of the
-   deviated object can still be read.) *)
-Theorem C05_annotations_retype_refuted :
-  exists t l l' p,
-    wf t = true /\ vmatch t l None false = O_match /\ deviates t false p l l' /\
-    vmatch t l' None false = O_false /\
-    forall u, tail {| tc_should_own := false; tc_owner_ref := JMap []; tc_update := u |} t l' None
-              = Some (TRaised ExAttributeError, []).
-Proof.
-  exists wg_target, wg_live, wg_live', [SKey "metadata"; SKey "annotations"].
-  exact annotations_retype_raises.
-Qed.
+(* (c) a third defect found by this check was repaired too (69b5a7d): a live
+   `metadata` / `metadata.annotations` that is not a map used to make
+   `_extract_last_applied` raise before the comparator ran; it now reads as
+   "no last-applied annotation".  Drift is still detected when a deviation
+   makes the annotation unreadable in that way: *)
+Theorem C05_drift_detected_annotation_lost : forall t s p l l' la,
+  wf t = true -> vmatch t l la s = O_match -> deviates t s p l l' ->
+  vmatch t l' None s = O_false.
+Proof. exact drift_detected_drop_thm. Qed.
 
 Section Dispatch.
   (* "... a managing ResourceFunction performs exactly the action its update
@@ -181,13 +173,20 @@ Section Dispatch.
 
   (* the two halves together, on the whole tail (owner check, last-applied
      extraction, comparison, dispatch): the live object matched, then deviates
-     at a specified path (its last-applied annotation still reads the same
-     document) => exactly the policy's action *)
-  Theorem C05_drift_corrected : forall cfg t l l' p ann ann' rr' la,
+     at a specified path => exactly the policy's action.  What is left of the
+     old "the annotation still reads the same" hypothesis: the extraction on
+     the deviated object returns ([Done]) either the same document or None.
+     With the repaired code it can fail to return only when (i) the LIVE OBJECT
+     itself is a truthy non-dict — which cannot come back from the API — or
+     (ii) the VALUE of the koreo.dev/last-applied-configuration annotation is
+     not a string / not parseable — which no target specifies ([ann_free]); a
+     deviation below metadata / metadata.annotations leaves that value alone
+     or makes the annotation read as None (next two theorems). *)
+  Theorem C05_drift_corrected : forall cfg t l l' p ann ann' rr' la la',
     wf t = true ->
     extract_last_applied_r l ann = Done la -> vmatch t l la false = O_match ->
     deviates t false p l l' ->
-    extract_last_applied_r l' ann' = Done la ->
+    extract_last_applied_r l' ann' = Done la' -> (la' = la \/ la' = None) ->
     (if tc_should_own cfg then validate_owner_reffed_r l' (tc_owner_ref cfg) else Done (Reffed true)) = Done rr' ->
     tail cfg t l' ann' =
       Some (match tc_update cfg with
@@ -195,7 +194,58 @@ Section Dispatch.
             | PRecreate d => (TRetry d "spec.update.recreate", [CDelete])
             | PPatch d => patch_branch cfg t l' rr' d
             end).
-  Proof. exact drift_corrected_thm. Qed.
+  Proof. exact drift_corrected_gen. Qed.
+
+  (* the repaired case, positively and for every target: live metadata
+     replaced by a non-map (anything: "x", a list, a number, null) is reported
+     as drift and the policy's action is taken ... *)
+  Theorem C05_metadata_retype_corrected : forall cfg tk ak tmd v v' sk lk cfg' ann ann' rr' la,
+    wf (JMap tk) = true ->
+    extract_last_applied_r (JMap ak) ann = Done la -> vmatch (JMap tk) (JMap ak) la false = O_match ->
+    dirs_of tk = Some (sk, lk, cfg') -> lookup "metadata" tk = Some (JMap tmd) ->
+    specified_key lk "metadata" = true -> lookup "metadata" cfg' = None ->
+    lookup "metadata" ak = Some v -> (forall m, v' <> JMap m) ->
+    let l' := JMap (set_key "metadata" v' ak) in
+    (if tc_should_own cfg then validate_owner_reffed_r l' (tc_owner_ref cfg) else Done (Reffed true)) = Done rr' ->
+    tail cfg (JMap tk) l' ann' =
+      Some (match tc_update cfg with
+            | PNever => (TLive l', [])
+            | PRecreate d => (TRetry d "spec.update.recreate", [CDelete])
+            | PPatch d => patch_branch cfg (JMap tk) l' rr' d
+            end).
+  Proof. exact metadata_retype_corrected. Qed.
+
+  (* ... and so is a target-specified metadata.annotations replaced by a non-map *)
+  Theorem C05_annotations_retype_corrected :
+    forall cfg tk ak tmd tan md a a' sk lk cfg' sk2 lk2 cfg2 ann ann' rr' la,
+    wf (JMap tk) = true ->
+    extract_last_applied_r (JMap ak) ann = Done la -> vmatch (JMap tk) (JMap ak) la false = O_match ->
+    dirs_of tk = Some (sk, lk, cfg') -> lookup "metadata" tk = Some (JMap tmd) ->
+    specified_key lk "metadata" = true -> lookup "metadata" cfg' = None ->
+    dirs_of tmd = Some (sk2, lk2, cfg2) -> lookup "annotations" tmd = Some (JMap tan) ->
+    specified_key lk2 "annotations" = true -> lookup "annotations" cfg2 = None ->
+    lookup "metadata" ak = Some (JMap md) -> lookup "annotations" md = Some a ->
+    (forall m, a' <> JMap m) ->
+    let l' := JMap (set_key "metadata" (JMap (set_key "annotations" a' md)) ak) in
+    (if tc_should_own cfg then validate_owner_reffed_r l' (tc_owner_ref cfg) else Done (Reffed true)) = Done rr' ->
+    tail cfg (JMap tk) l' ann' =
+      Some (match tc_update cfg with
+            | PNever => (TLive l', [])
+            | PRecreate d => (TRetry d "spec.update.recreate", [CDelete])
+            | PPatch d => patch_branch cfg (JMap tk) l' rr' d
+            end).
+  Proof. exact annotations_retype_corrected. Qed.
+
+  (* the former _refuted witness, now with every policy acting and the patch restoring the match *)
+  Example C05_annotations_retype_example :
+    vmatch wg_target wg_live None false = O_match /\
+    deviates wg_target false [SKey "metadata"; SKey "annotations"] wg_live wg_live' /\
+    tail (wg_cfg PNever) wg_target wg_live' None = Some (TLive wg_live', []) /\
+    tail (wg_cfg (PRecreate 3)) wg_target wg_live' None = Some (TRetry 3 "spec.update.recreate", [CDelete]) /\
+    exists p, prepare_for_api wg_target = Done p /\
+      tail (wg_cfg (PPatch 5)) wg_target wg_live' None = Some (TRetry 5 "spec.update.patch", [CPatch p]) /\
+      vmatch wg_target (merge_patch wg_live' (body p)) (Some (recorded p)) false = O_match.
+  Proof. exact annotations_retype_example. Qed.
 End Dispatch.
 
 (* "After a patch the object meets the target again": whatever the live object
@@ -281,11 +331,13 @@ Print Assumptions C05_set_member_retype_detected.
 Print Assumptions C05_set_membership_tells_bool_from_int.
 Print Assumptions C05_as_map_retype_detected.
 Print Assumptions C05_as_map_retype_corrected.
-Print Assumptions C05_annotations_retype_refuted.
+Print Assumptions C05_drift_detected_annotation_lost.
 Print Assumptions C05_dispatch.
 Print Assumptions C05_patch_payload.
 Print Assumptions C05_patch_payload_owner.
 Print Assumptions C05_one_call.
 Print Assumptions C05_mutation_is_retry.
 Print Assumptions C05_drift_corrected.
+Print Assumptions C05_metadata_retype_corrected.
+Print Assumptions C05_annotations_retype_corrected.
 Print Assumptions C05_patch_restores.
